@@ -5,6 +5,11 @@ ROOT = os.path.dirname(os.path.dirname(os.path.abspath(__file__)))
 BASE_OFF = "cd /repo && env -u BUIDL_VERIF_TRACE /venv/bin/python -m pytest -ra -q -p no:cacheprovider --timeout=900 --continue-on-collection-errors"
 
 CLAIMED = {
+ "C09": dict(
+   text="TLC proves by linearity of the BCH checksum that every one- and two-character substitution within 90 symbols is detected under both the Bech32 and Bech32m constants (including corruptions that flip the witness version between 0 and non-zero); recorded Base58/Base58Check calls (payloads 0..82 bytes with leading-zero runs, altered candidate strings), segwit address encode/decode for every witness version x program length x network, every single and sampled double substitution of sampled addresses, the five scriptPubKey templates x four networks through address()/address_to_script_pubkey/TxOut.to_address, and WIF are decided by TLC evaluating Addr.tla.",
+   design="3/C09",
+   note="Trusted: TLC, Addr.tla/Bech32.tla as transcription of Base58Check, BIP173/BIP350; hashlib for hash256 rows. Payload bytes sampled; code-distance claim exhaustive for weight <= 2.",
+   technique="TLA+ codec specification: TLC model checking of the checksum's error detection + TLC evaluation of recorded encode/decode calls"),
  "C20": dict(
    text="TLC explores BCURMulti.parse as the code's loop against an adversary that feeds parts of two payloads, corrupted fragments and lying part counts in any order and multiplicity (accepted => exactly the honest in-order part list of the returned payload) and checks the chunking law for all lengths/chunk sizes in a range; recorded bc32, CBOR and BCUR calls (every CBOR length-prefix boundary, many payload-length x chunk-size pairs, all permutations/omissions for small part counts, foreign parts, single-character corruptions of parts and digests) are decided by TLC evaluating the bc32 polymod, bit regrouping, CBOR and chunk slicing.",
    design="3/C20",
